@@ -14,6 +14,7 @@ V6  a block evaluates to the wires of its last statement
 V7  a call binds the i-th parameter of the called function to the i-th argument and returns the wires of that function's body
 V8  array reads select with push_mux(index bit, element at i + stride, element at i) in both copies of the mux tree
 V9  assignment through tuple / struct accessors writes back at the offset and width recorded when the accessor was read
+V13 cross-reference: environment effects of every lowered child reach the arm's exit (C14-E9)
 V12 the one-bit builder primitives (not, or, eq, mux, full adder, multiplier cell, conditional swap) compute their Boolean
     functions: abstract interpretation of their bodies over truth tables of the wire parameters (this discharges the
     "push_mux(s, a, b) selects a when s" assumption of C02 / C14 / C01)
@@ -991,5 +992,16 @@ def rule_v12(ctx):
     return res
 
 
+def rule_v13(ctx):
+    """Cross-reference: assignments made while lowering a child are never lost (C14-E9) - else a later read returns a stale value."""
+    res = RuleResult("V13", "no child is lowered on a copy of the environment that is thrown away (cross-reference to C14-E9)")
+    e9 = C14.rule_e9(ctx)
+    for x in e9.findings:
+        res.bad(Finding("V13", x.fn, x.site, x.message, x.span))
+    if not e9.findings:
+        res.ok({"verdict": "C14-E9 holds for every arm of the expression / statement lowering"})
+    return res
+
+
 def run(ctx):
-    return ctx.run_rules([rule_v12, rule_v11, rule_v1, rule_v2, rule_v3, rule_v4, rule_v5, rule_v6, rule_v7, rule_v8, rule_v9, rule_v10])
+    return ctx.run_rules([rule_v13, rule_v12, rule_v11, rule_v1, rule_v2, rule_v3, rule_v4, rule_v5, rule_v6, rule_v7, rule_v8, rule_v9, rule_v10])
